@@ -273,7 +273,36 @@ def step(run, op):
             cands = [i for i, (d, s) in enumerate(run.pool) if s.cu == sh.cu and s.tu == sh.tu
                      and type(d) is type(ds)]
             sel = [cands[int(i)] for i in rng.permutation(len(cands))[:int(rng.integers(1, min(3, len(cands)) + 1))]]
-            new = merge_datasets([run.pool[i][0] for i in sel])
+            parts = [run.pool[i][0] for i in sel]
+            sess = None
+            if len(cands) >= 1 and rng.integers(2):
+                # a dataset-level descriptor that differs between the parts (session A, B, A, ...): it must come back as a
+                # per-observation descriptor carrying each part's own value
+                k_parts = int(rng.integers(2, 5))
+                sel = [cands[int(i)] for i in rng.integers(0, len(cands), size=k_parts)]
+                sess = [gen.pick(rng, ['A', 'B']) for _ in sel]
+                if k_parts >= 3 and rng.integers(2):
+                    sess[0] = sess[-1] = 'A'
+                    sess[1] = 'B'
+                parts = []
+                for i, sv in zip(sel, sess):
+                    c = run.pool[i][0].copy()
+                    c.descriptors['sess'] = sv
+                    parts.append(c)
+                sig['arg'] = 'varying_dataset_descriptor'
+            new = merge_datasets(parts)
+            if sess is not None:
+                want_rows = [sv for i, sv in zip(sel, sess) for _ in run.pool[i][1].ou]
+                if len(set(sess)) == 1:
+                    okd = str(new.descriptors.get('sess')) == sess[0] or \
+                        [str(v) for v in new.obs_descriptors.get('sess', [])] == want_rows
+                else:
+                    okd = [str(v) for v in new.obs_descriptors.get('sess', [])] == want_rows
+                if not okd:
+                    ctx.fail(op, dict(sig, what='dataset_descriptor_promotion'), f'parts with dataset descriptor sess={sess}: '
+                             f'merged object has descriptors {new.descriptors.get("sess")!r} / obs descriptor '
+                             f'{list(new.obs_descriptors.get("sess", []))} instead of one value per row {want_rows}', hist())
+                    return False
             ou = [u for i in sel for u in run.pool[i][1].ou]
             run.add(new, mk(ou, sh.cu, sh.tu))
             touched = (len(run.pool) - 1,)
@@ -390,6 +419,19 @@ def step(run, op):
             lo, hi = ts[a] * 0.25, ts[b] * 0.25
             new = ds.subset_time('time', lo, hi)
             run.add(new, mk(sh.ou, sh.cu, [t for t in sh.tu if lo <= t * 0.25 <= hi]))
+            # the same selection through a second time descriptor with other numbers (milliseconds from another origin)
+            ms = [1000 - 7 * t for t in sh.tu]
+            ds2 = TemporalDataset(ds.measurements.copy(), obs_descriptors={'ouid': list(sh.ou)},
+                                  channel_descriptors={'cuid': list(sh.cu)},
+                                  time_descriptors={'time': np.array([t * 0.25 for t in sh.tu]), 'ms': np.array(ms)})
+            a2, b2 = sorted(float(x) for x in rng.choice(ms, size=2))
+            keep_t = [i for i, v in enumerate(ms) if a2 <= v <= b2]
+            sub2 = ds2.subset_time('ms', a2, b2)
+            if [int(v) for v in sub2.time_descriptors['ms']] != [ms[i] for i in keep_t] or \
+                    not np.array_equal(sub2.measurements, ds.measurements[:, :, keep_t]):
+                ctx.fail(op, dict(sig, what='other_time_descriptor'), f"subset_time('ms', {a2}, {b2}) on ms={ms} kept ms="
+                         f"{[int(v) for v in sub2.time_descriptors['ms']]} instead of {[ms[i] for i in keep_t]}", hist())
+                return False
             touched = (len(run.pool) - 1,)
         elif op == 'bin_time':
             if len(sh.tu) < 2:
